@@ -51,7 +51,7 @@ def run_property(pid, tier):
                 if ps is None:
                     f = sxlib.program(cfg).functions.get(o.fn)
                     ps = core.props_of_function(f) if f else set()
-                if pid in ps or rule.get("unscoped"):
+                if pid in ps or rule.get("unscoped") or pid in rule.get("all_for", ()):
                     if cfg != configs[0]:
                         o.oid = o.oid + "@" + cfg
                     scoped.append(o)
